@@ -1,7 +1,9 @@
 """C01: parsing is total — any argv against any valid command returns, never panics."""
 import collections
+import os
+import re
 
-from .. import gen_cmd
+from .. import core, gen_cmd
 from ..core import hexs
 from ..parse_streams import gen_cases, decode_case, parse_result, outcome_class, GLOBAL_SETTINGS
 from ..runner import Stream
@@ -30,8 +32,8 @@ TRUSTED = [
     "InvalidSubcommand and UnknownArgument is outside this property's projection); <str as Debug>::fmt (used by the "
     "error formatter's Escape) is a parameter of the rendering model",
     "translators/parse_sites.py (regex extraction of panic-shaped sites per function, of ErrorKind::as_str, of the "
-    "ContextKind enum and of what each error constructor attaches); 13 rows of the site table are justified by "
-    "reasoning local to the Rust function (pinned list: C01_sites_reasoned_rows)",
+    "ContextKind enum and of what each error constructor attaches); 10 rows of the site table are justified by "
+    "reasoning local to the Rust function (pinned lists: C01_sites_reasoned_rows, C01_sites_classified)",
     "stream errctx: harness/src/modes/c01.rs reads the private message form off the derived Debug of the error; "
     "ocaml/errctx_driver.ml; the suggestion context kinds, PriorArg's variant and InvalidArg-vs-InvalidSubcommand for "
     "ArgumentConflict / unknown-token errors are outside the comparison",
@@ -41,17 +43,20 @@ ASSUMPTIONS = [
     "agreement with a debug build's Command::build() is part of the correspondence (INVALID must coincide)",
     "no multicall, no Command::defer, built-in value parsers only",
     "stack/heap exhaustion and wall-clock are outside the theorem; the harness run has a per-shard timeout",
-    "C01_no_panic is proved for commands without short flag-subcommands (class plain) and, round 4, "
-    "C01_no_panic_flag_subs for the boolean class flag_sub_class (short flag-subcommands allowed; every level a "
-    "cluster can re-enter has no short flag-subcommands of its own and a first positional without negative-number / "
-    "non-last hyphen values); outside that class the resume counter of short flag-subcommands is the recorded "
-    "finding C01-flag-subcmd-skip",
+    "round 5: for EVERY definition the gate accepts (class unbuilt: the internal Built flag is unset on every node, a "
+    "syntactic check; users cannot set it) the only reachable panic site is debug_assert_eq!(advance_by(skip)) of "
+    "Parser::parse_short_arg (C01_only_site_920); it is unreachable for the boolean class flag_sub_class "
+    "(C01_no_panic_flag_subs: short flag-subcommands allowed; every level a cluster can re-enter has no short "
+    "flag-subcommands of its own and a first positional without negative-number / non-last hyphen values) and reachable "
+    "outside it: the recorded finding C01-flag-subcmd-skip",
 ]
 TECHNIQUE = ("Coq proof (state invariant of the parse loop: every unwrap/expect/unreachable!/debug_assert site of "
              "parser.rs/arg_matcher.rs on the path is dead for commands accepted by the validity gate; fuel = tree depth "
              "suffices -- for definitions without short flag-subcommands and, with the invariant generalised over "
-             "flag_subcmd_at/flag_subcmd_skip, for the boolean class flag_sub_class with them; ignore_errors swallows every stderr-class error; panic-site table regenerated from the Rust source "
-             "and proved equal to the model's, in both directions; model of the error value, its constructors and "
+             "flag_subcmd_at/flag_subcmd_skip, for the boolean class flag_sub_class with them, and for EVERY valid definition up to the one "
+             "debug assertion of the recorded finding (invariant: flag_subcmd_at is constant inside a level and <= cur_idx); "
+             "ignore_errors at the entry point: matches or help/version, nothing else; panic-site table regenerated from the Rust source "
+             "and proved equal to the model's, in both directions, every site with a pinned coverage class; model of the error value, its constructors and "
              "RichFormatter with 'rendering never panics and gets its context') + extracted-model/implementation "
              "correspondence (outcome class; for errors also context kinds, value variants, message form)")
 LEVEL_TEXT = ("Machine-checked theorems (Coq 8.16, closed under the global context) about the executable model of "
@@ -70,7 +75,17 @@ LEVEL_TEXT = ("Machine-checked theorems (Coq 8.16, closed under the global conte
               "are modelled with their unwraps visible: rendering never panics for any error value, every error the parser model "
               "returns (any definition, any input) is built by a modelled constructor and carries the context its message needs; "
               "the constructor/context tables are regenerated from error/*.rs and the context of every error is compared with the "
-              "implementation (stream errctx); (c) two further refutation witnesses for classes with short flag-subcommands.")
+              "implementation (stream errctx); (c) two further refutation witnesses for classes with short flag-subcommands.  "
+              "Round 4: no panic for the boolean class flag_sub_class (flat short flag-subcommands).  Round 5: (A) gate and class do "
+              "not read the program name, so the entry-point theorems speak about the definition as written (C01_no_panic_argv); the "
+              "error-ignoring contract at try_get_matches_from for the user-level setting: matches or DisplayHelp/DisplayVersion, "
+              "nothing else (C01_ignore_errors_top); (B) for EVERY definition the gate accepts and every argv the only reachable "
+              "panic site is the debug assertion on advance_by(skip) -- 30 of the 31 modelled source sites, incl. the unsigned "
+              "subtraction cur_idx - flag_subcmd_at, are dead without any class restriction (C01_only_site_920, "
+              "C01_sites_dead_any_valid); (C) every one of the 48 source sites has a coverage class pinned by name "
+              "(C01_sites_classified: 7 proved for every definition, 30 dead for every valid definition, 1 dead in the class only, "
+              "10 reasoned), printed into the evidence; three formerly prose rows are theorems (external-subcommand guard, ids of "
+              "missing_required_error).")
 LEVEL_NOTE = ("Trusted: Coq kernel, extraction, OCaml driver, Rust harness, generators. Recorded finding: nested short "
               "flag-subcommands whose intermediate flag consumes a number of indices other than one make the "
               "flag_subcmd_skip debug assertion fail (debug builds panic, release builds reject the line); round 2 found two "
@@ -79,7 +94,9 @@ LEVEL_NOTE = ("Trusted: Coq kernel, extraction, OCaml driver, Rust harness, gene
               "proves the no-panic theorem for the class in which neither mechanism can occur (flag_sub_class: short "
               "flag-subcommands one level deep below any chain of ordinary subcommands, re-entered level without a "
               "negative-number / non-last hyphen-value first positional); definitions with short flag-subcommands outside that "
-              "class are covered by the correspondence run and the direct oracle only. Not compared: error text, suggestion "
+              "class are covered, for that ONE assertion, by the correspondence run and the direct oracle only (round 5: every other "
+              "site is proved dead there too). Differential only: that assertion outside flag_sub_class; 10 source sites justified by "
+              "type-level / std-library / TypeId arguments (listed by name in the evidence). Not compared: error text, suggestion "
               "context kinds.")
 
 KNOWN_SKIP_MSG = "tracking of `flag_subcmd_skip` is off"
@@ -357,6 +374,78 @@ def describe(cases, tag):
     return {"sampled": min(len(cases), 3000), "argv_len": dict(sorted(lens.items())), "features": dict(feats.most_common(60))}
 
 
+# ---------------------------------------------------------------- panic-site coverage classes (round 5)
+SITE_CLASSES = [
+    ("CovAllDefs", "proved_for_every_definition",
+     "a statement about the model proved for EVERY definition (valid or not) and every input makes the site dead"),
+    ("CovValid", "dead_for_every_valid_definition",
+     "visible panic result of the model; never the outcome for every definition the gate accepts (class unbuilt /\\ valid), every argv"),
+    ("CovClassOnly", "DIFFERENTIAL_ONLY_outside_flag_sub_class",
+     "visible panic result of the model; dead for class flag_sub_class, REACHABLE outside it (finding C01-flag-subcmd-skip): "
+     "outside the class only the correspondence run and the direct oracle cover it"),
+    ("CovReasoned", "DIFFERENTIAL_ONLY_reasoned",
+     "no statement about the model: dead by reasoning local to the Rust function (string in Sites.v); covered by the direct oracle only"),
+]
+_SITE_RE = re.compile(r'\("([^"]+)", "([^"]+)", "([^"]+)", (\d+)\)')
+
+
+def site_classification():
+    """The four pinned lists of C01_sites_classified (Properties/C01.v; the proof gate has checked that they are the
+    classification computed from Sites.model_site_table and that together they are exactly Gen/ParseSites.v, which the
+    translator regenerated from the Rust source on this run), re-read here for the evidence, plus an independent
+    cross-check against the generated list."""
+    th = os.path.join(core.ROOT, "coq", "theories")
+    out = {"classes": {}, "meaning": {}}
+    try:
+        text = open(os.path.join(th, "Properties", "C01.v")).read()
+        i = text.index("Theorem C01_sites_classified :")
+        stmt = text[i:text.index("Proof.", i)]
+        gen_text = open(os.path.join(th, "Gen", "ParseSites.v")).read()
+        gen_text = gen_text[:gen_text.index("command_fns_on_parse_path")]
+    except (OSError, ValueError) as ex:
+        return {"error": "cannot read the classification: %r" % (ex,)}
+    fmt = lambda k: "%s %s %s #%s" % k  # noqa: E731
+    seen = []
+    for cov, label, meaning in SITE_CLASSES:
+        m = re.search(r"sites_of %s =\s*\[(.*?)\]" % cov, stmt, re.S)
+        keys = _SITE_RE.findall(m.group(1)) if m else []
+        out["classes"][label] = [fmt(k) for k in keys]
+        out["meaning"][label] = meaning
+        seen += keys
+    gen = _SITE_RE.findall(gen_text)
+    out["source_sites"] = len(gen)
+    out["unclassified_source_sites"] = [fmt(k) for k in gen if k not in seen]
+    out["classified_but_not_in_source"] = [fmt(k) for k in seen if k not in gen]
+    out["counts"] = {label: len(v) for label, v in out["classes"].items()}
+    return out
+
+
+_SITE_NOTE_PREFIX = "panic sites of the parse path"
+
+
+def publish_site_classes():
+    """print the classification and put the differential-only lists into the evidence (assumptions + distributions)"""
+    sc = site_classification()
+    ASSUMPTIONS[:] = [a for a in ASSUMPTIONS if not a.startswith(_SITE_NOTE_PREFIX)]
+    if "error" in sc:
+        ASSUMPTIONS.append("%s: %s" % (_SITE_NOTE_PREFIX, sc["error"]))
+        print("C01 panic sites: " + sc["error"])
+        return sc
+    c = sc["classes"]
+    ASSUMPTIONS.append(
+        "%s (regenerated from the source on this run: %d; pinned by C01_sites_classified): %d dead by a statement proved "
+        "for every definition, %d dead for EVERY definition the gate accepts (C01_sites_dead_any_valid), and DIFFERENTIAL "
+        "ONLY: (a) reachable outside class flag_sub_class, dead inside (C01_sites_dead_flag_subs): %s; (b) justified by "
+        "reasoning local to the Rust function, no theorem: %s"
+        % (_SITE_NOTE_PREFIX, sc["source_sites"], len(c["proved_for_every_definition"]),
+           len(c["dead_for_every_valid_definition"]), "; ".join(c["DIFFERENTIAL_ONLY_outside_flag_sub_class"]) or "none",
+           "; ".join(c["DIFFERENTIAL_ONLY_reasoned"]) or "none"))
+    print("C01 panic sites: %d in the source; %s; unclassified: %s; stale: %s"
+          % (sc["source_sites"], ", ".join("%s=%d" % kv for kv in sc["counts"].items()),
+             sc["unclassified_source_sites"] or "none", sc["classified_but_not_in_source"] or "none"))
+    return sc
+
+
 def streams(tier, rng):
     big = tier == "thorough"
     n_rand = 60000 if big else 5000
@@ -384,8 +473,11 @@ def streams(tier, rng):
     fsc = flagsub_cases(rng, 20000 if big else 2000)
     flagsub = Stream("parse-flagsub-class", fsc, oracle=oracle, area="parse", project=project,
                      nontrivial=nontrivial_flagsub, describe=describe(fsc, "parse-flagsub-class"))
+    # round 5: the coverage class of every panic-shaped source site, into the evidence (no cases: the proof gate has
+    # checked the lists; a site of the regenerated table without a class fails C01_sites_match / C01_sites_classified)
+    sites = Stream("panic-site-classes", [], describe=publish_site_classes())
     return [mk("parse-random", rand), mk("parse-adversarial", adversarial), mk("parse-boundary", bound),
-            mk("parse-ignore-errors", ign), flagsub, errctx]
+            mk("parse-ignore-errors", ign), flagsub, errctx, sites]
 
 
 def classify_known(stream, case, impl, failure):
